@@ -595,6 +595,13 @@ class FitEngine(Engine):
         if len(xs) - k > 0 and p < fr["min_p_value"] - 1e-12:
             ctx.violate("success_req", f"[{where}] success but p={p} < min_p_value={fr['min_p_value']}",
                         kind="success:p")
+        if len(xs) - k <= 0 and fr["min_p_value"] > 0:
+            # no degrees of freedom: the p-value is undefined (the library reports nan), so the
+            # stated requirement p >= min_p_value cannot be said to hold
+            ctx.probe("success_with_zero_degrees_of_freedom")
+            ctx.violate("success_req", f"[{where}] success for a window of {len(xs)} points and {k} parameters: "
+                        f"no degrees of freedom, reported p_value={float(r.p_value.value)!r} cannot satisfy "
+                        f"min_p_value={fr['min_p_value']}", kind="success:p_undefined")
         fw = ref_fit.fwhm(pk, popt)
         spanw = xs[-1] - xs[0]
         if fw > fr["max_peak_width_factor"] * spanw * (1 + 1e-12):
